@@ -160,13 +160,44 @@ class Snk(fm.TimeComponent):
     def _validate(self):
         pass
 
+    retries = 0
+
     def _update(self):
         nt = self.next_time
-        self.got.append((float(hrs(nt)), self.inputs["i"].pull_data(nt)))
+        for attempt in range(3):  # a transient refusal somewhere upstream (see Flaky) is handled by asking again
+            try:
+                d = self.inputs["i"].pull_data(nt)
+                break
+            except fm.errors.FinamNoDataError:
+                if attempt == 2:
+                    raise
+                self.retries += 1
+        self.got.append((float(hrs(nt)), d))
         self._time = nt
 
     def _finalize(self):
         pass
+
+
+class Flaky(fm.Adapter):
+    """fault injector (one deviation from the default environment answer): refuses its k-th request once with FinamNoDataError, either before
+    or after it asked its own source; every other request is passed through"""
+
+    def __init__(self, fail_at, mode):
+        super().__init__()
+        self.fail_at, self.mode, self.calls, self.fired = set(fail_at), mode, 0, 0
+
+    def _get_data(self, time, target):
+        self.calls += 1
+        hit = self.calls in self.fail_at
+        if hit and self.mode == "before":
+            self.fired += 1
+            raise fm.errors.FinamNoDataError("transient refusal")
+        d = self.pull_data(time, target)
+        if hit:
+            self.fired += 1
+            raise fm.errors.FinamNoDataError("transient refusal")
+        return d
 
 
 FACT = {"m": 1.0, "km": 1000.0, "mm": 0.001}
@@ -187,9 +218,14 @@ def run_merger(case):
         k.initial_pull = not case.get("no_initial_pull")
     comps = {"S": s, "W": w, **{k.name: k for k in snks}}
     c = compose([comps[x] for x in order])
+    flaky = None
     for k in range(n):
-        s[f"v{k}"] >> w[f"v{k}"]
-        s[f"w{k}"] >> w[f"v{k}_weight"]
+        for j, (a, b) in enumerate(((f"v{k}", f"v{k}"), (f"w{k}", f"v{k}_weight"))):
+            if case.get("fault") and case["fault"]["link"] == 2 * k + j:
+                flaky = Flaky(case["fault"]["at"], case["fault"]["mode"])
+                s[a] >> flaky >> w[b]
+            else:
+                s[a] >> w[b]
     for k in snks:
         w["WeightedSum"] >> k["i"]
     bad = []
@@ -197,6 +233,9 @@ def run_merger(case):
         c.run(end_time=T0 + H(case["end"]))
     except Exception as e:  # noqa
         return [("exception", type(e).__name__, f"{type(e).__name__}: {str(e)[:100]}")]
+    if flaky is not None:
+        case["_fired"] = flaky.fired
+        case["_retries"] = sum(k.retries for k in snks)
     for k in snks:
         if len(k.got) < 2:
             bad.append(("no_data", "", f"{k.name} received {len(k.got)} data sets"))
@@ -234,7 +273,12 @@ def run_case(case):
         res["n"] = 1
         res["nontrivial"] = 1 if len(case["steps"]) > 1 else 0
         res["counters"]["merger_cases"] = 1
-        for how, err, detail in run_merger(case):
+        outcome = run_merger(case)
+        if case.get("fault"):
+            res["counters"]["merger_fault_cases"] = 1
+            res["counters"]["merger_faults_fired"] = case.pop("_fired", 0)
+            res["counters"]["merger_consumer_retries"] = case.pop("_retries", 0)
+        for how, err, detail in outcome:
             fp = dict(kind="merger", how=how)
             if err:
                 fp["error"] = err
@@ -302,6 +346,17 @@ def run(tier, seed, agg):
             for steps in ([1], [1, 1]):
                 names = ["S", "W"] + [f"K{j}" for j in range(len(steps))]
                 cases.append(dict(kind="merger", units=["m"] * n, steps=steps, src_step=1, order=names, end=6, special=special))
+    # one transient fault (deviation bound 1; thorough: 2) on one link into the merger: the k-th request on that link is refused once, before or
+    # after the adapter asked the source; the consumer (or the connect loop) asks again and must get the sum for the time it asks for
+    for n in (1, 2):
+        for steps in ([1], [1, 1], [2]):
+            names = ["S", "W"] + [f"K{j}" for j in range(len(steps))]
+            for order in (names, names[::-1]):
+                for link in range(2 * n):
+                    for mode in ("before", "after"):
+                        ats = [[a] for a in range(1, 9)] + ([] if q else [[a, b] for a in range(1, 8) for b in range(a + 1, 9)])
+                        for at in ats:
+                            cases.append(dict(kind="merger", units=["m"] * n, steps=steps, src_step=1, order=order, end=6, fault=dict(link=link, at=at, mode=mode)))
     k = seed % len(cases)
     for r in pmap(run_case, cases[k:] + cases[:k]):
         agg.add(r)
@@ -312,7 +367,8 @@ def run(tier, seed, agg):
         level="model_checking",
         rule="(1) all event sequences up to the depth bound over {push v, push v', pull(static input, t), pull(non-static input, t)}, t in {None, before, at, after} on a real static Output; "
         "(2) explicit-state BFS over Composition.run for compositions with one or two pull-based components (series, two outputs, one output linked twice, merged producers, shared by two consumers), "
-        "every provider invocation must carry the consumer's (delay-shifted) request time and the C01 monitors must stay green; (3) WeightedSum with 1-3 pairs, all unit combinations of {m,km,mm}, 1-2 consumers with equal/different steps, both listing orders",
+        "every provider invocation must carry the consumer's (delay-shifted) request time and the C01 monitors must stay green; (3) WeightedSum with 1-3 pairs, all unit combinations of {m,km,mm}, 1-2 consumers with equal/different steps, both listing orders; "
+        "(4) the same mergers with one (thorough: up to two) transient fault on one of the links into the merger: the k-th request (k=1..8, connect phase included) is refused once with FinamNoDataError before or after the source was asked, the asking side repeats the request; every delivered sum must still be the sum for the requested time",
         bound=dict(static_depth=depth, horizon_h="5-6" if q else "7-8"),
         assumptions=["requests on a link into a pull-based component that are older than an earlier request (two readers at different paces) are a known limitation, see known_findings.json"],
     )
